@@ -370,6 +370,17 @@ def run(ctx, rep, tier):
                     rep.check("MALLOC" in ks and ks.index("MALLOC") < ks.index("MEMCPY"), "C03.f",
                               "CodegenCtx._generate_start_implementation", "default copied into freshly allocated heap string",
                               "default value is copied before / without allocating the heap string")
+        # the two loops must partition the heap strings on the *same* atom: default present (loop 1) / default absent (loop 2)
+        for delta, sub, endk, end in loops[1].bodies:
+            dflt = {k: b for k, b in delta.items() if "default_value" in k}
+            evs2 = [e for e in events_of(sub) if e.kind in ("NULLIFY", "MALLOC")]
+            if evs2:
+                rep.check(dflt == {"out_expr.default_value is None": True}, "C03.f", "CodegenCtx._generate_start_implementation", "heap-init loop handles exactly the outputs without default",
+                          f"the second loop of start() initialises a heap string under {dflt}, not under `default_value is None`: an output with an empty default is allocated twice "
+                          "(leak) or reset to NULL after its default was copied")
+            elif endk == "continue" and dflt:
+                rep.check(set(dflt) <= {"out_expr.default_value is None"}, "C03.f", "CodegenCtx._generate_start_implementation", "heap-init loop skips exactly the outputs with a default",
+                          f"the second loop of start() skips outputs under {dflt}: the split between 'default copied' and 'allocate / NULL' is no longer on `default_value is None`")
         init_kinds = set()
         for delta, sub, endk, end in loops[1].bodies:
             evs = [e for e in events_of(sub) if e.kind != "COMMENT"]
